@@ -700,3 +700,17 @@ M("C19", "twin: sign test on fb with the branches exchanged", "twin", [(BR, "   
 M("C19", "twin: four-way swap in one statement", "twin", [(BR, "        if abs(self.fa) < abs(self.fb):\n            self.a, self.b = self.b, self.a\n            self.fa, self.fb = self.fb, self.fa\n\n        self.current_guess = self.b", "        if abs(self.fa) < abs(self.fb):\n            self.a, self.b, self.fa, self.fb = self.b, self.a, self.fb, self.fa\n\n        self.current_guess = self.b")])
 M("C19", "twin: midpoint written from a", "twin", [(BR, "            dx = (self.a - self.b) / 2\n", "            dx = 0.5 * self.a - 0.5 * self.b\n")])
 M("C19", "twin: three-quarter bound with the factor outside", "twin", [(BR, "            (adx >= abs(3 * delta_ab / 4) or dx * delta_ab < 0)", "            (adx >= abs(0.75 * delta_ab) or delta_ab * dx < 0)")])
+# ---- HAM-mps: single-site term of the MPO
+HM = "emu_mps/hamiltonian.py"
+M("C02", "MPO drive term with the opposite phase sign", "kill", [(HM, "    single_qubit_terms[:, :2, :2] += a + b - c", "    single_qubit_terms[:, :2, :2] += a - b - c")], "HAM-mps")
+M("C02", "MPO detuning added instead of subtracted", "kill", [(HM, "    single_qubit_terms[:, :2, :2] += a + b - c", "    single_qubit_terms[:, :2, :2] += a + b + c")], "HAM-mps")
+M("C02", "MPO drive term cos/sin exchanged", "kill", [(HM, "    a = torch.tensordot(omega * torch.cos(phi), Operators.sx, dims=0)", "    a = torch.tensordot(omega * torch.sin(phi), Operators.sx, dims=0)"), (HM, "    b = torch.tensordot(omega * torch.sin(phi), Operators.sy, dims=0)", "    b = torch.tensordot(omega * torch.cos(phi), Operators.sy, dims=0)")], "HAM-mps")
+M("C02", "sigma-y table transposed", "kill", [(HM, "    sy = torch.tensor([[0.0, -0.5j], [0.5j, 0.0]], dtype=dtype)", "    sy = torch.tensor([[0.0, 0.5j], [-0.5j, 0.0]], dtype=dtype)")], "HAM-mps")
+M("C02", "sigma-x table without the half", "kill", [(HM, "    sx = torch.tensor([[0.0, 0.5], [0.5, 0.0]], dtype=dtype)", "    sx = torch.tensor([[0.0, 1.0], [1.0, 0.0]], dtype=dtype)")], "HAM-mps")
+M("C02", "update_H skips the last site", "kill", [(HM, "    for i in range(1, nqubits):\n        factors[i][1, :, :, 0] = single_qubit_terms[i]", "    for i in range(1, nqubits - 1):\n        factors[i][1, :, :, 0] = single_qubit_terms[i]")], "HAM-mps")
+M("C02", "update_H writes every site the first term", "kill", [(HM, "        factors[i][1, :, :, 0] = single_qubit_terms[i]", "        factors[i][1, :, :, 0] = single_qubit_terms[0]")], "HAM-mps")
+M("C02", "update_H uses the done-row slot for inner sites", "kill", [(HM, "        factors[i][1, :, :, 0] = single_qubit_terms[i]", "        factors[i][0, :, :, 0] = single_qubit_terms[i]")], "HAM-mps")
+M("C17", "update_H drops the noise term", "kill", [(HM, "    single_qubit_terms = torch.stack(nqubits * [noise])", "    single_qubit_terms = torch.stack(nqubits * [torch.zeros_like(noise)])")], "HAM-mps")
+M("C02", "XY middle factor loses the pending channel", "kill", [(HM, "        factor = self._empty_factor(left_bond_dim, right_bond_dim)\n\n        factor[0, :, :, 0] = self.identity\n        factor[1, :, :, 1] = self.identity\n\n        coeff = self._left_interaction_coefficients(n, current_left_interactions)\n        factor[2::2, :2, :2, 0] = coeff * 2 * Operators.sx", "        factor = self._empty_factor(left_bond_dim, right_bond_dim)\n\n        factor[0, :, :, 0] = self.identity\n\n        coeff = self._left_interaction_coefficients(n, current_left_interactions)\n        factor[2::2, :2, :2, 0] = coeff * 2 * Operators.sx")], "HAM-mps")
+M("C02", "twin: drive term written as one complex exponential pair", "twin", [(HM, "    single_qubit_terms[:, :2, :2] += a + b - c", "    single_qubit_terms[:, :2, :2] += (a - c) + b")])
+M("C02", "twin: detuning subtracted via a negated coefficient", "twin", [(HM, "    c = torch.tensordot(delta, Operators.n, dims=0)", "    c = torch.tensordot(-delta, Operators.n, dims=0)"), (HM, "    single_qubit_terms[:, :2, :2] += a + b - c", "    single_qubit_terms[:, :2, :2] += a + b + c")])
